@@ -85,11 +85,13 @@ class FakeNet:
         if action == "timeout":
             raise TimeoutError("fake network: timed out")
         headers = email.message.Message()
-        if action == "http503":
-            body = b"service unavailable"
+        if action.startswith("http"):       # http503, http429, http408, ...: a transient refusal by the file host
+            import http.client
+            code = int(action[4:])
+            body = b"not now"
             headers["Content-Length"] = str(len(body))
-            r = urllib.response.addinfourl(io.BytesIO(body), headers, url, 503)
-            r.msg = "Service Unavailable"
+            r = urllib.response.addinfourl(io.BytesIO(body), headers, url, code)
+            r.msg = http.client.responses.get(code, "Error")
             return r
         if action == "midbody":    # the connection times out after part of the body has been delivered
             body = payload_bytes(url, "good", rows, gz)
